@@ -4,12 +4,17 @@
 //! ever is reported instead of performed).
 //!   mk <pipe|stream|dgram|opath> <nonblock 0|1> <full 0|1>
 //!   reg <own|raw> <sig>      raise <n>      drain      unreg      final
+//!   eintr-close              the next close() the library makes releases the descriptor and answers EINTR
 use crate::common::*;
 use signal_hook_registry::verif_shim as shim;
 use std::os::unix::io::{FromRawFd, RawFd};
 use std::sync::Mutex;
 
 static LOG: Mutex<Vec<String>> = Mutex::new(Vec::new());
+/// `eintr-close`: the next `close` the library makes is performed - the descriptor is released, as Linux does -
+/// and answered with -1 / EINTR
+static EINTR_CLOSE: std::sync::atomic::AtomicBool = std::sync::atomic::AtomicBool::new(false);
+static EINTR_DONE: std::sync::atomic::AtomicBool = std::sync::atomic::AtomicBool::new(false);
 static FDS: Mutex<(i32, i32)> = Mutex::new((-1, -1));
 
 fn fdname(fd: i64) -> String {
@@ -18,6 +23,14 @@ fn fdname(fd: i64) -> String {
 }
 
 fn pre(e: &shim::Event) -> shim::Inject {
+    if e.op == shim::Op::Syscall && e.name == "close" && EINTR_CLOSE.swap(false, std::sync::atomic::Ordering::SeqCst) {
+        unsafe {
+            libc::close(e.arg as i32);
+            *libc::__errno_location() = libc::EINTR;
+        }
+        EINTR_DONE.store(true, std::sync::atomic::Ordering::SeqCst);
+        return shim::Inject::Return(-1);
+    }
     if e.op == shim::Op::Syscall && (e.name == "write" || e.name == "send") {
         let fd = e.arg as i32;
         let flags = (e.arg2 >> 32) as i32;
@@ -48,6 +61,12 @@ fn post(e: &shim::Event, result: u64, _ok: bool) {
             format!("sys write {} len={}{} = {}", fdname(e.arg as i64), len, if fl >= 0 && fl & libc::O_NONBLOCK != 0 { " nonblock-fd" } else { " BLOCKING" }, result as i64)
         }
         "fcntl" => format!("sys fcntl {} {} = {}", fdname(e.arg as i64), if hi == libc::F_GETFL as i64 { "getfl".to_string() } else if hi == libc::F_SETFL as i64 { format!("setfl nonblock={}", (len as i32 & libc::O_NONBLOCK != 0) as i32) } else { format!("cmd{}", hi) }, if (result as i64) < 0 { -1 } else { 0 }),
+        // an interrupted close is logged as what it did (the descriptor is gone), not as what it answered
+        "close" if EINTR_DONE.swap(false, std::sync::atomic::Ordering::SeqCst) => {
+            LOG.lock().unwrap().push(format!("sys close {} = 0", fdname(e.arg as i64)));
+            unsafe { *libc::__errno_location() = libc::EINTR; }
+            return;
+        }
         "close" => format!("sys close {} = {}", fdname(e.arg as i64), result as i64),
         n => format!("sys {} {} = {}", n, fdname(e.arg as i64), result as i64),
     };
@@ -169,6 +188,10 @@ fn run_child(ops: &[String]) {
                     total += r as i64;
                 }
                 println!("bytes={}", total);
+            }
+            ["eintr-close"] => {
+                EINTR_CLOSE.store(true, std::sync::atomic::Ordering::SeqCst);
+                println!("ok");
             }
             ["unreg"] => {
                 let b = id.map(signal_hook::low_level::unregister).unwrap_or(false);
